@@ -6,6 +6,8 @@ import (
 	"fmt"
 	"math/big"
 	"sort"
+	"sync"
+	"time"
 
 	"verif/harness/lib"
 )
@@ -105,6 +107,9 @@ type World struct {
 	Admissible bool
 	Why       string
 	hits      map[string]int
+	Pending   *In // input being processed by the real code right now (hang detection)
+	PendingM  int
+	enteredAt int64
 }
 
 func NewWorld(sc *Scenario) *World {
@@ -214,10 +219,15 @@ func (w *World) Do(m int, in In) []Act {
 	// --- run the real code ---
 	var acts []Act
 	var out string
+	w.Pending = &in
+	w.PendingM = m
+	watchEnter(w)
 	err, panicked, stack := lib.Try(func() error {
 		acts, out = canonActions(apply(w.sms[m], in))
 		return nil
 	})
+	watchLeave(w)
+	w.Pending = nil
 	if panicked {
 		out = "panic"
 		w.violate("state-machine-panics", fmt.Sprintf("machine %d input %s: %v\n%s", m, in.Line(m), err, stack))
@@ -443,4 +453,49 @@ func shrink(sc *Scenario, sig string, budget int) *Scenario {
 		}
 	}
 	return &cur
+}
+
+// ---- hang detection: a rule loop that never reaches a fixed point is a finding -----------------
+
+var (
+	watchMu   sync.Mutex
+	watched   = map[*World]time.Time{}
+	onHang    func(w *World)
+	watchOnce sync.Once
+)
+
+func watchEnter(w *World) {
+	watchMu.Lock()
+	watched[w] = time.Now()
+	watchMu.Unlock()
+}
+
+func watchLeave(w *World) {
+	watchMu.Lock()
+	delete(watched, w)
+	watchMu.Unlock()
+}
+
+// startWatchdog reports a call into the state machine that has been running for more than
+// `limit` (the callback must not return: it writes the result and exits the process, the stuck
+// goroutine cannot be stopped).
+func startWatchdog(limit time.Duration, hang func(w *World)) {
+	watchOnce.Do(func() {
+		go func() {
+			for {
+				time.Sleep(200 * time.Millisecond)
+				watchMu.Lock()
+				var stuck *World
+				for w, t := range watched {
+					if time.Since(t) > limit {
+						stuck = w
+					}
+				}
+				watchMu.Unlock()
+				if stuck != nil {
+					hang(stuck)
+				}
+			}
+		}()
+	})
 }
